@@ -24,6 +24,15 @@ theorem avoidCollisions_float (shapes : List Shape) (b : ABox) (cb : CB) (p : Pl
     simp only [Except.ok.injEq] at h
     exact h.symm
 
+/-- `avoid_collisions` on a float whose border box has height 0: the early return
+`(containing_block.content_box_x(), position_y, containing_block.width)`. -/
+theorem avoidCollisions_zero_float (shapes : List Shape) (b : ABox) (cb : CB) (outer : Bool)
+    (hf : b.float ≠ .none) (hz : b.bh = 0) :
+    avoidCollisions shapes b cb outer = .ok ⟨cb.cx, if outer then b.py else b.py + b.mt, cb.w⟩ := by
+  unfold avoidCollisions
+  have h1 : (decide (b.bh = 0) && b.isFloated) = true := by simp [hz, ABox.isFloated, hf]
+  simp only [if_pos h1]
+
 theorem findFloatPosition_ok (shapes : List Shape) (b : ABox) (cb : CB) (x y : Rat)
     (h : findFloatPosition shapes b cb = .ok (x, y)) :
     ∃ y0 p, b.py ≤ y0 ∧ (∀ s, shapes.getLast? = some s → s.y ≤ y0) ∧
